@@ -893,3 +893,268 @@ Example oracle_accepts_good_listing :
          (OTrace [(0, 0, [], None); (0, 0, [], None);
                   (0, 0, ex_lock, Some (Some (ex_text, 20), [(CTable ex_h1 true, (10, 5))]))]) = true.
 Proof. vm_compute. reflexivity. Qed.
+
+(* ------------------------------------------------------------------ *)
+(* no_live_unlink                                                       *)
+(* ------------------------------------------------------------------ *)
+(* no_live_unlink: in every reachable state of every interleaving, a step of the pruner never removes a table
+   file or archive that the persisted manifest names at that moment.  (What protects a file that a writer has
+   landed but not yet published is only the grace period: that case ends in ErrManifestSpecMissingTableFile for
+   the writer, see inv_reachable / r_missing; it is not claimed here.) *)
+Theorem no_live_unlink_step st a :
+  SysInv st -> step_actor a = Some APruner ->
+  forall m h, disk_parsed (sy_dir st) m -> In h (names m) -> table_exists (sy_dir (sys_step st a)) h = true.
+Proof.
+  intros HS Ha m h [t [mt [H1 H2]]] Hin.
+  assert (Hne : a <> UFinish) by (intros ->; discriminate).
+  pose proof (manifest_text_other_steps st a Hne) as Ht.
+  pose proof (inv_step st a HS) as Hinv. apply Inv_alt in Hinv. destruct Hinv as [Hi _].
+  unfold manifest_text in Ht. rewrite H1 in Ht.
+  destruct (d_manifest (sy_dir (sys_step st a))) as [[t' mt']|] eqn:E; [|discriminate].
+  inversion Ht; subst t'. apply (Hi m); [|exact Hin]. exists t, mt'. split; [exact E|exact H2].
+Qed.
+
+Theorem no_live_unlink : forall (sched : list step) (d0 : dir) (a : step),
+  Inv d0 -> step_actor a = Some APruner ->
+  let st := fold_left sys_step sched (sys_init d0) in
+  forall m h, disk_parsed (sy_dir st) m -> In h (names m) -> table_exists (sy_dir (sys_step st a)) h = true.
+Proof. intros sched d0 a H Ha st. apply no_live_unlink_step; [|exact Ha]. apply sysinv_reachable. apply sysinv_init. exact H. Qed.
+
+(* the candidate actually unlinked is not named: the keep set taken under the LOCK covers the manifest *)
+Theorem no_live_unlink_candidate st h arch sp rest keep :
+  SysInv st -> sy_p st = PLocked ((CTable h arch, sp) :: rest) keep ->
+  snd (fst (sys_step_r st PUnlink)) = r_ok ->
+  forall m, disk_parsed (sy_dir st) m -> ~ In h (names m).
+Proof.
+  intros [_ [HP _]] Hp Hc m Hd Hin. unfold PartP in HP. rewrite Hp in HP. destruct HP as [_ Hk].
+  pose proof (Hk m h Hd Hin) as Hkeep. apply mem_hash_In in Hkeep.
+  unfold sys_step_r in Hc. rewrite Hp in Hc. rewrite Hkeep in Hc. cbn in Hc. discriminate.
+Qed.
+
+(* ------------------------------------------------------------------ *)
+(* the trace oracle holds of the model                                  *)
+(* ------------------------------------------------------------------ *)
+Lemma existsb_insert_cand f c l : existsb f (insert_cand c l) = f c || existsb f l.
+Proof.
+  induction l as [|x l IH]; [reflexivity|]. cbn [insert_cand].
+  destruct (bytes_leb (cname_bytes (fst c)) (cname_bytes (fst x))); cbn [existsb]; [reflexivity|].
+  rewrite IH. destruct (f c), (f x); reflexivity.
+Qed.
+
+Lemma existsb_sort_cands f l : existsb f (sort_cands l) = existsb f l.
+Proof.
+  induction l as [|x l IH]; [reflexivity|]. unfold sort_cands in *. cbn [fold_right existsb].
+  rewrite existsb_insert_cand, IH. reflexivity.
+Qed.
+
+Lemma existsb_map_c {A B} (f : B -> bool) (g : A -> B) l : existsb f (map g l) = existsb (fun x => f (g x)) l.
+Proof. induction l as [|x l IH]; [reflexivity|]. cbn [map existsb]. rewrite IH. reflexivity. Qed.
+
+Lemma existsb_all_false {A} (f : A -> bool) l : (forall x, f x = false) -> existsb f l = false.
+Proof. intros H. induction l as [|x l IH]; [reflexivity|]. cbn [existsb]. rewrite H, IH. reflexivity. Qed.
+
+Lemma snap_table_exists_of d h : snap_table_exists (snap_of d) h = table_exists d h.
+Proof.
+  unfold snap_table_exists, snap_of, table_exists. cbn [snd].
+  rewrite existsb_sort_cands, !existsb_app, !existsb_map_c. cbn [fst].
+  rewrite (existsb_all_false _ (d_tmpt d)) by reflexivity.
+  rewrite (existsb_all_false _ (d_tmpm d)) by reflexivity.
+  rewrite !orb_false_r. reflexivity.
+Qed.
+
+Lemma forallb_ext_c {A} (f g : A -> bool) l : (forall x, f x = g x) -> forallb f l = forallb g l.
+Proof. intros H. induction l as [|x l IH]; [reflexivity|]. cbn [forallb]. rewrite H, IH. reflexivity. Qed.
+
+Lemma snap_inv_b_of d : snap_inv_b (snap_of d) = inv_b d.
+Proof.
+  unfold snap_inv_b, inv_b. change (fst (snap_of d)) with (d_manifest d).
+  destruct (d_manifest d) as [[t mt]|]; [|reflexivity].
+  destruct (parse_manifest t); try reflexivity. apply forallb_ext_c. intros h. apply snap_table_exists_of.
+Qed.
+
+Lemma Inv_inv_b d : Inv d -> inv_b d = true.
+Proof.
+  unfold Inv, inv_b. destruct (d_manifest d) as [[t mt]|]; [|reflexivity].
+  intros [m [Hp Hall]]. rewrite Hp. apply forallb_forall. exact Hall.
+Qed.
+
+Lemma wf_manifest_b_complete m : wf_manifest m -> wf_manifest_b m = true.
+Proof.
+  intros [Hne [Hnbf [Hl [Hr [Hg [Hle Hss]]]]]].
+  assert (Hh : forall h, wf_hash h -> rep_hash_b h = true).
+  { intros h [Hlen Hall]. unfold rep_hash_b. rewrite Hlen. cbn [N.of_nat]. apply andb_true_iff. split; [reflexivity|].
+    apply forallb_forall. intros x Hx. rewrite Forall_forall in Hall. specialize (Hall x Hx). lia. }
+  assert (Hc : forallb (fun c => negb (c =? c_colon)) (m_nbf m) = true).
+  { apply forallb_forall. intros x Hx. rewrite Forall_forall in Hnbf. specialize (Hnbf x Hx). unfold c_colon in *. lia. }
+  assert (Hs : forallb rep_spec_b (m_specs m) = true).
+  { apply forallb_forall. intros s Hs. rewrite Forall_forall in Hss. destruct (Hss s Hs) as [Ha Hb].
+    unfold rep_spec_b. rewrite (Hh _ Ha). cbn [andb]. lia. }
+  unfold wf_manifest_b. rewrite (Hh _ Hl), (Hh _ Hr), (Hh _ Hg), Hle, Hc, Hs.
+  destruct (m_nbf m); [contradiction|reflexivity].
+Qed.
+
+Lemma opt_eqb_bytes_refl o : opt_eqb beq_bytes o o = true.
+Proof. destruct o; [apply beq_bytes_refl|reflexivity]. Qed.
+
+Definition coherent (st : sys) (prev : option bytes) (pending : option manifest) : Prop :=
+  prev = manifest_text (sy_dir st) /\ forall u, s_upd (sy_s st) = Some u -> pending = Some (u_new u).
+
+(* a step other than ULock never starts an update: the proposed contents of an update in flight do not change *)
+Ltac fin H := (eexists; split; [exact H|reflexivity]).
+
+Lemma upd_preserved st s u' :
+  (forall gc l n, s <> ULock gc l n) ->
+  s_upd (sy_s (sys_step st s)) = Some u' -> exists u, s_upd (sy_s st) = Some u /\ u_new u' = u_new u.
+Proof.
+  intros Hs. unfold sys_step, sys_step_r. destruct s; try (exfalso; eapply Hs; reflexivity).
+  - destruct (lookup_n id (d_tmpt (sy_dir st))); simp; intros H; fin H.
+  - destruct (lookup_n id (d_tmpt (sy_dir st))); simp; intros H; fin H.
+  - destruct (table_exists (sy_dir st) h); simp; intros H; fin H.
+  - destruct (s_upd (sy_s st)) eqn:E; simp; [intros H; rewrite E in H; fin H|].
+    destruct (match s_up (sy_s st) with Some m => mem_hash h (names m) | None => false end); simp; intros H; [rewrite E in H|]; discriminate.
+  - destruct (mem_hash h (s_open (sy_s st))); simp; intros H; fin H.
+  - simp. intros H; fin H.
+  - destruct (s_upd (sy_s st)) as [u|] eqn:E; simp; [|intros H; rewrite E in H; discriminate].
+    destruct (u_tmp u); [simp; intros H; rewrite E in H; fin H|].
+    destruct (lookup_tmpm id (d_tmpm (sy_dir st))); [simp; intros H; rewrite E in H; fin H|].
+    destruct (write_manifest (u_new u)); simp; intros H; [|discriminate].
+    inversion H; subst u'. (eexists; split; reflexivity).
+  - destruct (s_upd (sy_s st)) as [u|] eqn:E; simp; [|intros H; rewrite E in H; discriminate].
+    destruct (u_tmp u); [simp; intros H; rewrite E in H; fin H|].
+    destruct (lookup_tmpm id (d_tmpm (sy_dir st))); [simp; intros H; rewrite E in H; fin H|].
+    destruct (write_manifest (u_new u)); simp; intros H; [rewrite s_init_upd in H; discriminate|].
+    rewrite E in H. fin H.
+  - destruct (s_upd (sy_s st)) as [u|] eqn:E; simp; [|intros H; rewrite E in H; discriminate].
+    destruct (u_tmp u); simp; intros H; [discriminate|]. rewrite E in H. fin H.
+  - destruct (s_upd (sy_s st)) as [u|] eqn:E; simp; [|intros H; rewrite E in H; discriminate].
+    destruct (u_tmp u); simp; [|intros H; rewrite E in H; fin H].
+    destruct (update_verdict (sy_dir st) u); simp; [destruct (lookup_tmpm n (d_tmpm (sy_dir st))) as [[? ?]|]; simp|]; intros H; discriminate.
+  - simp. rewrite s_init_upd. discriminate.
+  - destruct (sy_p st); simp; try (intros H; fin H).
+    destruct (probe - 0 <? 0); destruct (probe <? newest_mtime (sy_dir st) + grace); simp; try (intros H; fin H);
+      destruct (scan_candidates (sy_dir st)); simp; intros H; eexists; split; try exact H; reflexivity.
+  - destruct (sy_p st); simp; try (intros H; fin H).
+    destruct (sy_lock st); simp; [intros H; fin H|].
+    destruct (parsed_manifest (sy_dir st)) as [[]|]; simp;
+      try (intros H; fin H);
+      match goal with |- context [optN_eqb ?a ?b] => destruct (optN_eqb a b) end; simp; intros H; eexists; split; try exact H; reflexivity.
+  - destruct (sy_p st) as [| |cs keep]; simp; try (intros H; fin H).
+    destruct cs as [|[c sp] rest]; simp; [intros H; fin H|].
+    destruct (match c with CTable h _ => mem_hash h keep | _ => false end); simp; [intros H; fin H|].
+    destruct (cand_stat (sy_dir st) c); simp; [|intros H; fin H].
+    destruct (stamp_eqb sp s); simp; intros H; eexists; split; try exact H; reflexivity.
+  - simp. intros H; fin H.
+  - simp. intros H; fin H.
+Qed.
+
+Lemma snap_text d : match fst (snap_of d) with Some (t, _) => Some t | None => None end = manifest_text d.
+Proof. reflexivity. Qed.
+
+Lemma unlink_all_spec fuel : forall st n st' c n',
+  unlink_all fuel st n = (st', c, n') -> SysInv st ->
+  SysInv st' /\ manifest_text (sy_dir st') = manifest_text (sy_dir st) /\ s_upd (sy_s st') = s_upd (sy_s st).
+Proof.
+  induction fuel as [|f IH]; intros st n st' c n' H HS.
+  - cbn in H. inversion H; subst. auto.
+  - cbn [unlink_all] in H.
+    destruct (sy_p st) as [| |cs keep] eqn:Ep; [inversion H; subst; auto | inversion H; subst; auto |].
+    destruct (sys_step_r st PUnlink) as [[st1 code] lk] eqn:Es.
+    assert (Hst1 : st1 = sys_step st PUnlink) by (unfold sys_step; rewrite Es; reflexivity).
+    assert (HS1 : SysInv st1) by (rewrite Hst1; apply sysinv_step; exact HS).
+    assert (Ht1 : manifest_text (sy_dir st1) = manifest_text (sy_dir st))
+      by (rewrite Hst1; apply manifest_text_other_steps; discriminate).
+    assert (Hu1 : s_upd (sy_s st1) = s_upd (sy_s st)).
+    { destruct HS as [_ [HP HU]]. pose proof (U_when_pruner_holds st HU) as Hn.
+      unfold PartP in HP. rewrite Ep in HP. rewrite (Hn (proj1 HP)).
+      destruct (s_upd (sy_s st1)) as [u1|] eqn:E1; [|reflexivity].
+      rewrite Hst1 in E1. destruct (upd_preserved st PUnlink u1) as [u [Hu0 _]]; [intros; discriminate|exact E1|].
+      rewrite (Hn (proj1 HP)) in Hu0. discriminate. }
+    destruct ((code =? r_done) || (code =? r_changed)).
+    + inversion H; subst. auto.
+    + destruct (IH _ _ _ _ _ H HS1) as [Ha [Hb Hc]]. split; [exact Ha|]. split; congruence.
+Qed.
+
+Lemma trace_ok_run : forall steps st prev pending,
+  SysInv st -> coherent st prev pending -> trace_ok steps (run_trace st steps) prev pending = true.
+Proof.
+  induction steps as [|a r IH]; intros st prev pending HS [Hprev Hpend]; [reflexivity|].
+  cbn [run_trace]. destruct (run_tstep st a) as [st' o] eqn:Er. destruct a as [s|].
+  - (* one model step *)
+    unfold run_tstep in Er. destruct (sys_step_r st s) as [[st1 code] lk] eqn:Es. inversion Er; subst st' o. clear Er.
+    assert (Hst1 : st1 = sys_step st s) by (unfold sys_step; rewrite Es; reflexivity).
+    assert (HS1 : SysInv st1) by (rewrite Hst1; apply sysinv_step; exact HS).
+    cbn [trace_ok]. rewrite snap_inv_b_of, (Inv_inv_b _ (proj1 (proj1 HS1))), snap_text. cbn [andb].
+    set (pending' := match s with ULock _ _ new => if norm_code code =? r_ok then Some new else pending | _ => pending end).
+    assert (Hcoh : coherent st1 (manifest_text (sy_dir st1)) pending').
+    { split; [reflexivity|]. intros u1 Hu1. subst pending'.
+      destruct (match s with ULock _ _ _ => true | _ => false end) eqn:Eul.
+      - destruct s; try discriminate. unfold sys_step_r in Es.
+        destruct (s_upd (sy_s st)) as [u0|] eqn:E0.
+        { inversion Es as [[Ha Hb Hc]]. try rewrite <- Hb. cbn. apply Hpend. congruence. }
+        destruct (negb (rep_manifest_b new && forallb (fun h => mem_hash h (s_open (sy_s st))) (names new))).
+        { inversion Es as [[Ha Hb Hc]]. congruence. }
+        destruct (sy_lock st).
+        { inversion Es as [[Ha Hb Hc]]. congruence. }
+        inversion Es as [[Ha Hb Hc]]. rewrite <- Ha in Hu1. cbn in Hu1. inversion Hu1. try rewrite <- Hb. reflexivity.
+      - rewrite Hst1 in Hu1. destruct (upd_preserved st s u1) as [u [Hu0 Hn]]; [intros gc l n ->; discriminate|exact Hu1|].
+        rewrite Hn. destruct s; try discriminate; apply Hpend; exact Hu0. }
+    replace (opt_eqb beq_bytes (manifest_text (sy_dir st1)) prev
+             || match TS s with
+                | TS UFinish => match pending' with
+                                | Some new => opt_eqb beq_bytes (manifest_text (sy_dir st1)) (write_manifest new) && wf_manifest_b new
+                                | None => false
+                                end
+                | _ => false
+                end) with true.
+    + cbn [andb]. apply IH; assumption.
+    + symmetry. pose proof (update_atomic st s HS) as Hat. rewrite <- Hst1 in Hat. destruct Hat as [Hsame | [new [Hpn [Hwf [Htxt _]]]]].
+      * rewrite Hsame, <- Hprev, opt_eqb_bytes_refl. reflexivity.
+      * destruct (match s with UFinish => true | _ => false end) eqn:Ef.
+        -- destruct s; try discriminate. subst pending'. unfold pending_new in Hpn.
+           destruct (s_upd (sy_s st)) as [u|] eqn:Eu; [|discriminate]. inversion Hpn; subst new.
+           rewrite (Hpend u eq_refl), Htxt, opt_eqb_bytes_refl, (wf_manifest_b_complete _ Hwf). apply orb_true_r.
+        -- assert (Hne : s <> UFinish) by (intros ->; discriminate).
+           rewrite Hst1, (manifest_text_other_steps st s Hne), <- Hprev, opt_eqb_bytes_refl. reflexivity.
+  - (* the pruner's whole unlink pass *)
+    unfold run_tstep in Er.
+    destruct (unlink_all (match sy_p st with PLocked cs _ => S (length cs) | _ => 1%nat end) st 0) as [[st1 code] n] eqn:Eu.
+    inversion Er; subst st' o. clear Er.
+    destruct (unlink_all_spec _ _ _ _ _ _ Eu HS) as [HS1 [Ht1 Hu1]].
+    cbn [trace_ok]. rewrite snap_inv_b_of, (Inv_inv_b _ (proj1 (proj1 HS1))), snap_text, Ht1, <- Hprev, opt_eqb_bytes_refl.
+    cbn [andb orb]. apply IH; [exact HS1|]. split; [congruence|]. intros u Hu. apply Hpend. congruence.
+Qed.
+
+Lemma sysinv_empty : SysInv (sys_init empty_dir).
+Proof. apply sysinv_init. exact I. Qed.
+
+(* oracle_on_model_trace: for every schedule of model steps (and whole-pass unlink macro steps), the executable
+   statement of the property is true of the model's own observation *)
+Theorem oracle_on_model_trace steps : oracle (ITrace steps) (model_obs (ITrace steps)) = true.
+Proof.
+  cbn [model_obs oracle]. apply trace_ok_run; [apply sysinv_empty|]. split; [reflexivity|].
+  intros u Hu. cbn in Hu. discriminate.
+Qed.
+
+
+(* a conjoin proposes only tables of upstream plus the conjoined one *)
+Lemma conj_loop_sub specs : forall i na cj c s, In s (conj_loop specs i na cj c) -> s = c \/ In s specs.
+Proof.
+  induction specs as [|x r IH]; intros i na cj c s H; [destruct H|].
+  cbn [conj_loop] in H. apply in_app_or in H. destruct H as [H|H].
+  - destruct (mem_hash (sp_name x) cj); [destruct H|]. destruct H as [<-|[]]. right. left. reflexivity.
+  - apply in_app_or in H. destruct H as [H|H].
+    + destruct (Nat.eqb i na); [|destruct H]. destruct H as [<-|[]]. left. reflexivity.
+    + destruct (IH _ _ _ _ _ H) as [->|Hin]; [left; reflexivity|right; right; exact Hin].
+Qed.
+
+Theorem oracle_on_model_conj up cj c : oracle (IConj up cj c) (model_obs (IConj up cj c)) = true.
+Proof.
+  cbn [model_obs oracle]. destruct (conj_can_apply up cj); [|reflexivity].
+  apply forallb_forall. intros s Hs. cbn [conjoin_new m_specs] in Hs.
+  destruct (conj_loop_sub _ _ _ _ _ _ Hs) as [->|Hin].
+  - rewrite spec_eqb_refl. reflexivity.
+  - apply orb_true_iff. right. apply existsb_exists. exists s. split; [exact Hin|apply spec_eqb_refl].
+Qed.
+
+Theorem oracle_on_model i : oracle i (model_obs i) = true.
+Proof. destruct i; [apply oracle_on_model_codec|reflexivity|apply oracle_on_model_trace|apply oracle_on_model_conj]. Qed.
